@@ -336,6 +336,13 @@ func pyProgram(c DfCase, thorough bool) bool {
 // only, non-zero exit) and --autoretry=1: no job failed, so every job runs
 // exactly once.
 func clusterOnce(r *ev.Run) {
+	clusterOnceWith(r, BOptions{FlakyQueue: true}, "cluster-flaky-queue",
+		"the queue listing cut short twice while a job runs for 9 s")
+	clusterOnceWith(r, BOptions{PadPs: true}, "cluster-padded-pids",
+		"the repository's own queue query (ps xo pid) printing the pid column right-aligned in a wider column while a job runs for 9 s")
+}
+
+func clusterOnceWith(r *ev.Run, base BOptions, tag, what string) {
 	p := progen.Dataflow(progen.DataflowParams{Kind: "int", Src: "gen", Size: 2, Cons: "add"})
 	ref, err := progen.Interpret(p)
 	if p == nil || err != nil {
@@ -343,7 +350,9 @@ func clusterOnce(r *ev.Run) {
 	}
 	slowJob := "ID." + Psid + ".TOP.GEN.fork0.chnk0.main"
 	run := func() ([]string, *BResult) {
-		br := RunB(p, BOptions{JobMode: "fake_remote", FlakyQueue: true, AutoRetry: 1, Slow: map[string]int{slowJob: 9000}, Timeout: 150 * time.Second})
+		o := base
+		o.JobMode, o.AutoRetry, o.Slow, o.Timeout = "fake_remote", 1, map[string]int{slowJob: 9000}, 150*time.Second
+		br := RunB(p, o)
 		if br.Err != "" {
 			return nil, br
 		}
@@ -360,22 +369,22 @@ func clusterOnce(r *ev.Run) {
 		return
 	}
 	defer br.Cleanup()
-	r.Eval("B|cluster-flaky-queue")
+	r.Eval("B|" + tag)
 	r.Add("tierb_runs", 1)
 	if len(viol) == 0 {
-		r.Outcome("tierb-cluster-flaky-queue-ok")
+		r.Outcome("tierb-" + tag + "-ok")
 		return
 	}
 	v2, br2 := run()
 	br2.Cleanup()
 	if strings.Join(v2, "\n") != strings.Join(viol, "\n") {
-		r.Inconclusive("cluster mode with a flaky queue listing: non-reproducible: " + viol[0])
+		r.Inconclusive("cluster mode (" + tag + "): non-reproducible: " + viol[0])
 		return
 	}
 	r.Outcome("tierb-violation")
 	for _, v := range viol {
-		r.Report(ev.Finding{Sig: sigFor("C03", v) + ":cluster", What: "real mrp in cluster mode (fake_remote, --autoretry=1), the queue listing cut short twice while a job runs for 9 s: " + v,
-			Case: BCase{Tier: "B-cluster-flaky-queue", Shape: DfCase{Family: "dataflow", Params: progen.DataflowParams{Kind: "int", Src: "gen", Size: 2, Cons: "add"}}}})
+		r.Report(ev.Finding{Sig: sigFor("C03", v) + ":cluster", What: "real mrp in cluster mode (fake_remote, --autoretry=1), " + what + ": " + v,
+			Case: BCase{Tier: "B-" + tag, Shape: DfCase{Family: "dataflow", Params: progen.DataflowParams{Kind: "int", Src: "gen", Size: 2, Cons: "add"}}}})
 	}
 }
 
